@@ -48,20 +48,25 @@ def f19_applies(ctoks, cells, pl):
 
 def run(ctx):
     from checks import detailed_common as dc
-    proof_ok, proof = common.proof_status(ctx, "C04")
+    proof_ok, proof = common.proof_status_all(ctx, "C04", ["gaps1"])
     n = 3000 if ctx.quick else 200000
     s = ctx.seed
-    plan = [(0, n // 2, s + 10), (2, n // 2, s + 11), (16, n // 3, s + 12)]
+    plan = [(0, n // 2, s + 10), (2, n // 2, s + 11), (16, n // 3, s + 12),
+            (1, n // 6, s + 13)]      # bit 1: legalize twice on the same Circuit, both runs judged
     run = lc.LegalRun(ctx, plan).execute()
     tl, tbad = tables(ctx, run.harness, run.driver)
-    mism, ofail, nontriv = [], [], set()
+    mism, ofail, nontriv, crashes = [], [], set(), []
     known_f19 = 0
+    second_runs = 0
     for i, l in enumerate(run.lines):
-        kind, pl, order = run.parsed[i][0]
-        same, istr, mstr = run.model_cmp(i, 0)
+      # every run of the case is judged (run 1 = the second legalize of a 'twice' case, on the same Circuit object)
+      for k, (kind, pl, order) in enumerate(run.parsed[i]):
+        tag = "" if k == 0 else "[second legalize of the same Circuit] "
+        second_runs += k > 0
+        same, istr, mstr = run.model_cmp(i, k)
         if not same:
-            mism.append((l, istr, mstr))
-        flags = run.checks.get((i, 0))
+            mism.append((l, tag + istr, mstr))
+        flags = run.checks.get((i, k))
         if kind == "OK":
             ctoks, _ = lc.split_case(l)
             cells, _ = lc.cells_of(ctoks)
@@ -69,9 +74,11 @@ def run(ctx):
                 if f19_applies(ctoks, cells, pl) and ctx.known_finding("F19"):
                     known_f19 += 1
                 else:
-                    ofail.append((l, run.impl[i], "after legalization a cell has an orientation its polarity does not prescribe (proved checker orient_okb = false)"))
+                    ofail.append((l, run.impl[i], tag + "after legalization a cell has an orientation its polarity does not prescribe (proved checker orient_okb = false)"))
             if any(c[5] != 0 and not c[6] for c in cells):
                 nontriv.add(l)
+        elif not (kind in ("NOROW", "NOTALL") or kind.startswith("THROW")):
+            crashes.append((l, run.impl[i], tag + kind))
     for l, i, m in tbad[:2]:
         ofail.append((l, i, "orientation table differs from the documented one: " + str(m)))
     # detailed placement part
@@ -101,12 +108,16 @@ def run(ctx):
                 "rule": "tables: all 5 polarities x 10 enum values, exhaustive; legalization: random circuits of the C01 generator (every polarity on 1-3 row cells, "
                         "alternating/uniform/irregular N/S/FN/FS rows); detailed placement: orient_okb at every Detailed callback and at return. "
                         "non-trivial = the circuit has a polarised movable cell and the call returned",
-                "known_F19_matches": known_f19,
+                "known_F19_matches": known_f19, "second_legalize_runs_judged": second_runs,
+                "legalize_no_outcome_cases": {"count": len(crashes), "first": [(c[0], c[2]) for c in crashes[:3]],
+                                              "note": "abort/crash of Circuit::legalize: no orientation to judge; reported by C01/C07 (same generator), listed here so that it cannot hide"},
                 "exhaustive": True, "table_entries": len(tl), "table_differences": len(tbad),
                 "samples": [run.lines[0], tl[7]],
                 "detailed_runs": dres["runs"], "detailed_callback_states_checked": dres["states"],
                 "model_vs_impl_differences": len(mism), "impl_outputs_violating_statement": len(ofail)})
-    return ctx.finish(LEVEL, cov, ["orientation after legalization/detailed placement is validated with the proved checker, not proved for the raw algorithms",
+    return ctx.finish(LEVEL, cov, ["orientation after legalization is PROVED for the raw legalizer model on the sub-domain std_design + known row orientations + row_orient_by_y (or row-high designs) and refuted outside it (F19); for detailed placement it is proved for every history of row-model operations under orient_ok of the input, dshifts_ok and closed operations / dhist_allowed, not for placeDetailed as a whole; everywhere else it is validated with the proved checker",
+                                   "the specification `prescribed` is the code's table read on the bottom row only (NW / SE copy the code; the documentation's even-height / alternating-row clauses are not specified)",
+                                   "'exhaustive' refers to the 50 table entries only; F19 is matched per circuit (a circuit containing one cell of the F19 shape); only the first run of 'twice' cases is judged",
                                    "rows of one circuit are pairwise disjoint (domain of C01)"])
 
 
